@@ -607,6 +607,17 @@ pub fn judge_c17(s: &Scenario, r: &RunResult) -> Vec<String> {
             .filter(|e| parse_docker_run(&e.argv[1..]).is_ok_and(|d| Some(&d.image) == image.as_ref()))
             .collect();
         claimed.extend(runs.iter().map(|e| e.i));
+        // without an injected fault the first configuration of every independent build reaches
+        // pack, whatever happened to the builds before it in the same process — unless its own
+        // preparation cannot succeed (fixture cannot be copied, own crate does not compile)
+        if s.fault == Fault::None && builds.is_empty() {
+            if let Some(first) = chain.first() {
+                let prep_fails = (s.fixture_uncopyable && first.cfg.preprocessor.is_some()) || (s.crate_broken && first.cfg.own_buildpack.is_some());
+                if !prep_fails {
+                    v.push(format!("build {ri}: no pack build invocation for its build configuration"));
+                }
+            }
+        }
         v.extend(judge_c17_root(ri, &chain, &builds, &runs, r).into_iter().map(|l| if s.more_roots.is_empty() { l } else { format!("build {ri}: {l}") }));
     }
     for e in &docker_runs {
